@@ -244,10 +244,13 @@ func (s *Service) refreshProposerDutiesForEpoch(ctx context.Context, epoch phase
 	))
 	defer span.End()
 
+	cancelledJobs := make(map[phase0.Slot]bool)
 	// First thing we do is cancel all scheduled beacon bock proposal jobs for the epoch.
 	for slot := s.chainTimeService.FirstSlotOfEpoch(epoch); slot < s.chainTimeService.FirstSlotOfEpoch(epoch+1); slot++ {
 		s.scheduler.CancelJobIfExists(ctx, fmt.Sprintf("Early beacon block proposal for slot %d", slot))
-		s.scheduler.CancelJobIfExists(ctx, fmt.Sprintf("Beacon block proposal for slot %d", slot))
+		if err := s.scheduler.CancelJob(ctx, fmt.Sprintf("Beacon block proposal for slot %d", slot)); err == nil {
+			cancelledJobs[slot] = true
+		}
 	}
 
 	_, validatorIndices, err := s.accountsAndIndicesForEpoch(ctx, epoch)
@@ -262,7 +265,10 @@ func (s *Service) refreshProposerDutiesForEpoch(ctx context.Context, epoch phase
 		return
 	}
 
-	s.scheduleProposals(ctx, epoch, validatorIndices, true /* notCurrentSlot */)
+	// Only reschedule the slot in progress if its job was cancelled.  The slot in question is the one in
+	// progress once the duties have been obtained, which can be the slot after the one in which the jobs
+	// were cancelled.
+	s.scheduleProposalsWithFilter(ctx, epoch, validatorIndices, func(slot phase0.Slot) bool { return !cancelledJobs[slot] })
 }
 
 func (s *Service) refreshAttesterDutiesForEpoch(ctx context.Context, epoch phase0.Epoch) {
